@@ -10,6 +10,7 @@ II_FNS = ["min_max_for_bits", "to_i32", "to_u64", "to_u32", "signum", "checked_a
 II_TYPED = {f: "rs_II_" + f for f in II_FNS}
 SIR_TYPED = {"is_negative": "rs_is_negative", "is_zero": "rs_is_zero", "to_u64": "rs_SIR_to_u64",
              "to_i32": "rs_SIR_to_i32", "to_big": "rs_SIR_to_big", "to_owned": "rs_SIR_to_owned"}
+ABR = {"a": "StarlarkIntRef", "b": "StarlarkIntRef"}
 PAYLOAD = {"Small": "InlineInt", "Big": "StarlarkBigInt"}
 AB = {"a": "InlineInt", "b": "InlineInt"}   # pattern-bound payloads of `Small(..)`; `.get()` on a `Big` payload stays m_get
 
@@ -19,9 +20,15 @@ GROUPS = [
              "typed_receivers": {"InlineInt": II_TYPED}},
      # abs is the 2nd `fn abs`? no: inline_int.rs has a single `fn abs(`
      "fns": [(f, 0, "rs_II_" + f) for f in II_FNS]},
-    {"name": "RsInt", "file": IOB, "imports": ["RsInline"],
+    {"name": "RsBig", "file": "starlark/src/values/types/bigint.rs", "imports": ["RsInline"],
+     "cfg": {"self_type": "StarlarkBigInt", "self_name": "StarlarkBigInt", "newtypes": {"InlineInt": "i32"},
+             "typed_receivers": {"InlineInt": II_TYPED}},
+     "fns": [("cmp_small_big", 0, "rs_cmp_small_big"), ("cmp_big_small", 0, "rs_cmp_big_small")]},
+    {"name": "RsInt", "file": IOB, "imports": ["RsInline", "RsBig"],
      "cfg": {"self_type": "StarlarkIntRef", "self_name": "StarlarkIntRef", "newtypes": {"InlineInt": "i32"},
-             "typed_receivers": {"InlineInt": II_TYPED, "StarlarkIntRef": SIR_TYPED}, "ctor_payload": PAYLOAD},
+             "typed_receivers": {"InlineInt": II_TYPED, "StarlarkIntRef": SIR_TYPED}, "ctor_payload": PAYLOAD,
+             "assoc_fns": {"StarlarkBigInt::cmp_small_big": "rs_cmp_small_big",
+                           "StarlarkBigInt::cmp_big_small": "rs_cmp_big_small"}},
      "fns": [("to_owned", 0, "rs_SIR_to_owned"),
              ("to_big", 0, "rs_SIR_to_big"),
              ("to_i32", 0, "rs_SIR_to_i32"),
@@ -37,7 +44,18 @@ GROUPS = [
              ("percent", 0, "rs_percent"),
              ("left_shift", 0, "rs_left_shift", {"other": "StarlarkIntRef"}),
              ("right_shift", 0, "rs_right_shift", {"other": "StarlarkIntRef"}),
-             ("abs", 0, "rs_abs", {"i": "InlineInt"})]},
+             ("abs", 0, "rs_abs", {"i": "InlineInt"}),
+             ("bitand", 0, "rs_bitand", ABR), ("bitor", 0, "rs_bitor", ABR), ("bitxor", 0, "rs_bitxor", ABR),
+             ("not", 0, "rs_bitnot", {"a": "StarlarkIntRef"}),
+             ("neg", r"impl<'v> Neg for StarlarkIntRef", "rs_neg_sir"),
+             ("add", r"impl<'v> Add for StarlarkIntRef", "rs_add_sir", {"other": "StarlarkIntRef"}),
+             ("sub", r"impl<'v> Sub for StarlarkIntRef", "rs_sub_sir", {"other": "StarlarkIntRef"}),
+             ("mul", r"impl<'v> Mul<i32> for StarlarkIntRef", "rs_mul_i32_sir"),
+             ("mul", r"impl<'v> Mul for StarlarkIntRef", "rs_mul_sir"),
+             ("cmp", r"impl<'v> Ord for StarlarkIntRef", "rs_cmp_sir")],
+     # the trait impl `Mul<StarlarkIntRef> for i32 { rhs * self }` and the operator `StarlarkIntRef * i32`
+     "postlude": {"rs_mul_i32_sir": ["#[global] Instance rsmul_rep_Z : RsMul rep Z rep := rs_mul_i32_sir.",
+                                     "#[global] Instance rsmul_Z_rep : RsMul Z rep rep := fun a b => rs_mul_i32_sir b a."]}},
     {"name": "RsIndex", "file": "starlark/src/values/index.rs", "imports": ["RsInline", "RsInt"],
      "cfg": {"typed_receivers": {"StarlarkIntRef": SIR_TYPED}},
      "fns": [("unpack_slice_bound", 0, "rs_unpack_slice_bound", {"i": "StarlarkIntRef"}),
